@@ -1,7 +1,7 @@
 """C02 — delivery receipts attributed to the message they report on: tier 2 correspondence
 through the real ESME._handle_response / _handle_request and the attribution predicate."""
 from vlib import Case
-from corr.corrlib import CorrSim, Q
+from corr.corrlib import CorrSim, Q, tok
 
 ID = 'C02'
 TARGETS = ['SmppVerif.Props.C02']
@@ -199,8 +199,53 @@ def id_shapes_history(rng, kind):
     return cases
 
 
+def tracking_history(rng):
+    """applications track by log_id, by extra_data, by both or by neither: the receipt for a message carries exactly the
+    log_id AND the extra_data the message was submitted with (each on its own, the empty value included)"""
+    sim = CorrSim(ttl_resp_q=15 * Q, ttl_deliv_q=10 ** 7)
+    cases = [Case(sim.first_line, 'ok', None)]
+    fail = None
+    try:
+        shapes = [(0, 1070), (71, 0), (72, 1072), (0, 0), (0, 1074)]
+        rng.shuffle(shapes)
+        shapes = shapes[:rng.randrange(2, 6)]
+        t = 100
+        for i, (lg, ex) in enumerate(shapes):
+            t += 1
+            ln, out = sim.op_put(t, sim.submit(i + 1, lg, ex))
+            cases.append(Case(ln, out, None))
+            t += 1
+            ln, out, _ = sim.op_hresp(t, sim.resp('submitresp', i + 1, 0, 'id%d' % i))
+            cases.append(Case(ln, out, None))
+        order = list(range(len(shapes)))
+        rng.shuffle(order)
+        dseq = 9100
+        for i in order:
+            t += 1
+            dseq += 1
+            if rng.random() < 0.4:
+                d = sim.deliver(dseq, 'x', receipt=('', 0), tlv_id='id%d' % i)
+            else:
+                d = sim.deliver(dseq, 'x', receipt=('id%d' % i, 0))
+            ln, out, res = sim.op_hdel(t, d)
+            cases.append(Case(ln, out, None))
+            lg, ex = shapes[i]
+            have = (getattr(res, 'log_id', None), getattr(res, 'extra_data', None))
+            if fail is None and have != (tok(lg), tok(ex)):
+                fail = 'receipt for the message submitted with log_id %r / extra_data %r handed over with %r / %r' % (
+                    tok(lg), tok(ex), have[0], have[1])
+        ln, out = sim.op_dump()
+        cases.append(Case(ln, out, ('tracking', tuple(sorted((bool(a), bool(b)) for a, b in shapes))), fail,
+                          {'op': 'history', 'label': 'tracking', 'lines': [c.line for c in cases[1:]]}))
+    finally:
+        sim.close()
+    return cases
+
+
 def generate(rng, tier):
     thorough = tier == 'thorough'
+    for _ in range(40 if thorough else 12):
+        yield from tracking_history(rng)
     for _ in range(120 if thorough else 40):
         yield from id_shapes_history(rng, rng.choice(('numeric-hex', 'numeric-hex', 'echo', 'prefix')))
     for _ in range(1200 if thorough else 350):
